@@ -421,6 +421,11 @@ LAYER_IO_SUBST = IO_SUBST + [
     (r"(?s)(?:backend_t::owning_data_t|__typeof__\s*\(\s*m_storage\s*\))\s*::\s*write_binary\s*\(\s*fs\s*,\s*o\s*\.\s*m_storage\s*\)", "backend_write_binary(fs, &o.m_storage)", 0, True),
     (r"(?s)owning_data_t\s*\(\s*sizes\s*,\s*std::move\s*\(\s*be\s*\)\s*\)", "verif_layer_own_ctor(sizes, be)", 0, True),
     (r"__typeof__\s*\(\s*m_sizes\s*\)", "ND_SIZE_T", 0, True),
+    # the inner backend's configuration (abstract: one arbitrary extent, see stubs/backend_io.h)
+    (r"(?s)std::\s*is_same_v\s*<\s*typename\s+backend_t::configuration_t\s*,\s*(?:covfie::)?(?:utility::)?nd_size\s*<\s*1\s*>\s*>", "VERIF_B_CONF_IS_ND1", 0, True),
+    (r"\b(be|o\s*\.\s*m_storage)\s*\.\s*get_configuration\s*\(\s*\)", r"backend_get_configuration(&\1)", 0, True),
+    (r"typename\s+backend_t::configuration_t", "B_CONF_T", 0, True),
+    ("contravariant_input_t::dimensions", "DIMS_IN", 0),
 ]
 LAYER_FILES = {"1": (STRIDED, "struct strided"), "2": (MORTON, "struct morton"), "3": (HILBERT, "struct hilbert"),
                "4": (CLAMP, "struct clamp"), "5": (BACKUP, "struct backup")}
@@ -456,7 +461,8 @@ def make_layer_io(name, consts, L="1"):
     fns.append(Fn("read_binary_ndsize", BINIO, ["namespace covfie::utility"], "read_binary", ret="ND_SIZE_T", ptypes=["VERIF_ISTREAM *"],
                   subst=[("T", "ND_SIZE_T", 0)] + IO_SUBST, drop=[r"(?s)static_assert\s*\(.*?\)\s*;"], throws=True, dummy_ret="rv"))
     fns.append(Fn("layer_read_binary", f, [sc, "struct owning_data_t"], "read_binary", ret="LAYER_OWN_T", ptypes=["VERIF_ISTREAM *"],
-                  subst=LAYER_IO_SUBST, throws=True, propagate=MAY_THROW, dummy_ret="((LAYER_OWN_T){0})"))
+                  subst=LAYER_IO_SUBST, throws=True, propagate=MAY_THROW, dummy_ret="((LAYER_OWN_T){0})",
+                  arrays=["sizes"], call_index=["backend_get_configuration"]))
     fns.append(Fn("layer_write_binary", f, [sc, "struct owning_data_t"], "write_binary", ret="void", ptypes=["VERIF_OSTREAM *", "const LAYER_OWN_T *"],
                   subst=LAYER_IO_SUBST, refparams=["o"]))
     return Unit(name, fns, "contracts/layer_io.h", "lemmas/layer_io.c")
